@@ -152,6 +152,13 @@ func ext۰time۰Since(fr *frame, args []value) value {
 	return d
 }
 
+// extFreshID returns a fresh distinct identifier of 24 hex digits, like the
+// hex form of a bson ObjectID.
+func extFreshID(fr *frame, args []value) value {
+	fr.i.cx.fresh++
+	return fmt.Sprintf("f%023x", fr.i.cx.fresh)
+}
+
 // zeroOf returns the zero result of the called function (used by prefix stubs).
 func stubZero(fr *frame, args []value) value { return zeroResult(fr.fn) }
 
@@ -162,6 +169,10 @@ func init() {
 		"(*go.uber.org/zap.Logger).",
 		"go.uber.org/zap.",
 		"(*github.com/yorkie-team/yorkie/server/profiling/prometheus.Metrics).",
+		// shard selection of pkg/cache.LRU: every key lives in shard 0 (the
+		// shards are independent LRUs; which one holds a key is unobservable)
+		"hash/maphash.Comparable",
+		"hash/maphash.MakeSeed",
 	} {
 		prefixExternals = append(prefixExternals, struct {
 			prefix string
@@ -170,10 +181,8 @@ func init() {
 	}
 	for k, v := range map[string]externalFn{
 		// fresh distinct identifiers (bson object ids)
-		"github.com/yorkie-team/yorkie/server/backend/database/memory.newID": func(fr *frame, args []value) value {
-			fr.i.cx.fresh++
-			return fmt.Sprintf("id%022d", fr.i.cx.fresh)
-		},
+		"github.com/yorkie-team/yorkie/server/backend/database/memory.newID": extFreshID,
+		"github.com/yorkie-team/yorkie/api/types.NewID":                      extFreshID,
 		"github.com/yorkie-team/yorkie/server/profiling/prometheus.NewMetrics": func(fr *frame, args []value) value {
 			return tuple{(*value)(nil), iface{}} // all Metrics methods have empty bodies
 		},
